@@ -24,8 +24,9 @@ Destinations for handshakes / punch-to-all / data roaming are taken from `Remote
 
 Standing hypotheses (named, not proved here): (H1) the underlay source address of a packet is unmapped
 (`EvWF`; the udp listeners call `Unmap` on every received address); (H2) the remote allow list and my
-networks are fixed over a history — a reload of `lighthouse.remote_allow_list` does not re-filter entries
-recorded earlier; (H3) the operator's explicit overrides (`Control.SetRemoteForTunnel`, ssh `change-remote`)
+networks are fixed over a history — reloads of everything else are covered (`reload_keeps_cache_invariant`),
+but a reload of `lighthouse.remote_allow_list` / `remote_allow_ranges` does not re-filter entries recorded
+earlier (`allowlist_reload_leaves_stale_candidate`, known finding); (H3) the operator's explicit overrides (`Control.SetRemoteForTunnel`, ssh `change-remote`)
 are outside the quantifier.
 
 Reading of "each information source … at most ten" (F20): a source is one cache owner × address family
@@ -177,6 +178,34 @@ example :
     learnGate c .roam peer (some ⟨⟨.v4, 0x01010101⟩, 4242⟩) ⟨⟨⟨.v4, 0x01010101⟩, 4242⟩, false⟩ false = none ∧
     learnGate c .stage1 peer none ⟨⟨⟨.v4, 0x01010101⟩, 4242⟩, false⟩ false = some ⟨⟨.v4, 0x01010101⟩, 4242⟩ ∧
     learnGate c .roam peer (some ⟨⟨.v4, 0x01010101⟩, 4242⟩) ⟨⟨⟨.v4, 0x08080808⟩, 1⟩, false⟩ false = some ⟨⟨.v4, 0x08080808⟩, 1⟩ := by
+  decide
+
+
+/-- Reloads that do not touch the remote allow lists (lighthouse hosts added / removed / permuted, static map
+changes, `am_lighthouse` in the file) keep the cache invariant: `candidates_usable` continues to hold across
+them. -/
+theorem reload_keeps_cache_invariant (n : Node) (h : Good n.cfg n.lh) (new : RawCfg)
+    (hsame : new.g = n.raw.g ∧ new.ranges = n.raw.ranges) :
+    Good (reloadNode n new).cfg (reloadNode n new).lh :=
+  good_reloadNode h new hsame
+
+/-- H2 cannot be lifted for the code as it is (known finding `addr-stale-after-allowlist-reload`): a reload
+that replaces `lighthouse.remote_allow_list` does not re-filter the cache. Witness: a lighthouse answer
+recorded 1.1.1.1:4242 for a peer; the reload denies 1.1.1.1/32; the address is still a candidate and is not
+usable under the configuration now in force. -/
+theorem allowlist_reload_leaves_stale_candidate :
+    let l1 : Addr := ⟨.v4, 0x0a800002⟩
+    let st : List (Addr × List AP) := [(l1, [⟨⟨.v4, 0x46010102⟩, 4242⟩])]
+    let c : Cfg := { amLighthouse := false, myNets := [⟨⟨.v4, 0x0a800001⟩, 24⟩], lighthouses := [l1],
+                     ral := { allowList := none, inside := none }, initV := 2, staticList := [l1] }
+    let d : Details := { oldVpn := 0x0a80000a, v4 := [⟨⟨.v4, 0x01010101⟩, 4242⟩] }
+    let n : Node := { cfg := c, lh := (handleRequest c {} [l1] { typ := typHostQueryReply, details := some d }).1,
+                      raw := { hosts := [l1], statics := st } }
+    let n' := reloadNode n { hosts := [l1], statics := st,
+                             g := some [{ key := some ⟨⟨.v4, 0x01010101⟩, 32⟩, val := some false }] }
+    (match n'.lh.getList 0 with
+     | some rl => (candidates rl (some (shouldAddAll n'.cfg))).any (fun x => !usableGlobal n'.cfg x.addr)
+     | none => false) = true := by
   decide
 
 end Nebula.Props.C36
